@@ -101,6 +101,8 @@ pub fn check_variant(text: &[u8], vname: &str, model: &Model<'_>, names: &Names,
     let base = ast_fp(text);
     let mut exp = vec![];
     let mut got = vec![];
+    let reused = ReusedQuery::new();
+    let mut qn = 0u64;
     for_each_line_query(model, names, |c, me, l, file| {
         let bits = model.frames_by_line(c, me, l as u128, file, &mut exp);
         rep.cases(bits);
@@ -127,6 +129,32 @@ pub fn check_variant(text: &[u8], vname: &str, model: &Model<'_>, names: &Names,
                 d.set("actual", show_frames(&got));
                 let sig = format!("by-line answer differs from model impl={} {}", who, diff_signature(&got, &exp, bits));
                 rep.violation(case_idx, "model-by-line", &sig, d);
+            }
+        }
+        // every third query once more with class, method and file served from one reused
+        // allocation (same addresses as the previous such query)
+        qn += 1;
+        if qn % 3 == 0 && ReusedQuery::fits(c) && ReusedQuery::fits(me) {
+            for which in 0..3 {
+                got.clear();
+                let (rc, rm, rf) = (reused.put(0, c), reused.put(1, me), file.map(|f| reused.put(2, f)));
+                match which {
+                    0 => m.frames(rc, rm, l as usize, rf, None, &mut got),
+                    1 => mp.frames(rc, rm, l as usize, rf, None, &mut got),
+                    _ => cache.frames(rc, rm, l as usize, rf, None, &mut got),
+                }
+                rep.count("evaluations", 1);
+                rep.count("queries_from_reused_storage", 1);
+                if !frames_equal_model(&got, &exp) {
+                    let who = ["mapper", "mapper+params", "cache"][which];
+                    let mut d = mapping_detail(text, vname);
+                    d.set("implementation", Json::s(who));
+                    d.set("query", query_json(c, me, l, file, None));
+                    d.set("expected", show_mframes(&exp));
+                    d.set("actual", show_frames(&got));
+                    rep.violation(case_idx, "model-by-line", &format!("by-line answer differs from model when the query strings come from reused storage impl={who}"), d);
+                }
+                got.clear();
             }
         }
     });
